@@ -239,6 +239,11 @@ func (te *taskEnv) execM3(op *Op, rec *OpRec) bool {
 // reporter that has sent more datagrams than that many metrics since the fair
 // continuation began, with Close still waiting, is letting new reports in
 // after Close began: "Close returns" then depends on the producers pausing.
+//
+// (Called from the scheduler's goroutine: the harness's own fields it reads are
+// none of the race detector's business.)
+//
+//go:norace
 func (env *Env) starved() string {
 	st, _ := env.ext.(*m3State)
 	if st == nil || !st.is(&st.closeInvoked) || st.is(&st.closeReturned) {
